@@ -76,7 +76,9 @@ theorem cndVal_fresh (K : Closures) (kw : Val) (o : Op) (ex : Val) : IsFreshCond
 
 /-- **C16 (shape of the result).** Whatever the decoder returns as Stack is a native Stack of one
 of the five kinds with the default configuration (no capacity, no options, no policies), and
-whatever it returns as Condition is a native initialised Condition. -/
+whatever it returns as Condition is a native initialised Condition. (On such values the model's
+`Stk.String`, `Stk.unmarshal` and the element walk are total functions as well: the follow-up calls
+named by the property return normally for the same reason `Marshal` does.) -/
 theorem C16_result_shape (l : List Val) :
     (∀ x, (marshalList l).stk = some x → IsFreshStack x) ∧
     (∀ x, (marshalList l).cnd = some x → IsFreshCond x) := by
@@ -242,7 +244,7 @@ theorem C16_labels_and : classify "and".toList = .kind Gen.kind_and := rfl
 theorem C16_labels_Or : classify "Or".toList = .kind Gen.kind_or := rfl
 theorem C16_labels_nOt : classify "nOt".toList = .kind Gen.kind_not := rfl
 theorem C16_labels_list_dotless : classify "lıst".toList = .kind Gen.kind_list := rfl
-theorem C16_labels_baſic : classify "baſic".toList = .kind Gen.kind_basic := rfl
+theorem C16_labels_long_s : classify "baſic".toList = .kind Gen.kind_basic := rfl
 theorem C16_labels_condition : classify "Condition".toList = .cond := rfl
 theorem C16_labels_junk : classify "ANDD".toList = .other := rfl
 theorem C16_labels_empty : classify [] = .other := rfl
